@@ -950,7 +950,8 @@ pub const START_DOCS: [&str; 13] = [
     // inline tables with dotted keys that are not the last entry (conversions have to re-root the paths correctly)
     "i = { p.q = 1, r = 2, s.t.u = 3, v = 4 } # @i\nz = 0 # @z\n[h] # @h\nj = { a.b = 1, c = 2 } # @h.j\n",
     // headers out of tree order around an array of tables: a table visited early in the walk has a late position
-    "[a.b] # @a.b\nk = 1 # @a.b.k\n[[p]] # @p0\nn = 1 # @p0.n\n[[p]] # @p1\nn = 2 # @p1.n\n[a] # @a\nj = 3 # @a.j\n",
+    // (`x` is visited first - it was seen first - but its second sub-table has the LAST position of the document)
+    "[x.a] # @x.a\nk = 1 # @x.a.k\n[[p]] # @p0\nn = 1 # @p0.n\n[[p]] # @p1\nn = 2 # @p1.n\n[x.b] # @x.b\nj = 3 # @x.b.j\n",
 ];
 
 /// a wide document: 24 headers whose source order differs from the tree-walk order (ordering of the printed tables
